@@ -263,6 +263,8 @@ func emOp(o Op) string {
 		return fmt.Sprintf("(OPlot %s %s %s %s %s %s)", emBool(o.Bar), f, emStr(o.S1), emStr(o.S2), emBool(o.PathOK), emBool(o.RenderOK))
 	case "groupbyother":
 		return fmt.Sprintf("(OGroupbyOther %s %s)", f, emBool(o.KeyKind <= 2))
+	case "iofail":
+		return fmt.Sprintf("(OIoFail %s false)", f) // the step emitter supplies the observed outcome
 	case "fromcsv":
 		return fmt.Sprintf("(OFromCSV %s)", emStr(o.Bytes))
 	case "csvroundtrip":
@@ -375,7 +377,11 @@ func emHist(h Hist) string {
 	prev := h.Pool
 	parts := make([]string, len(h.Steps))
 	for i, s := range h.Steps {
-		parts[i] = "{| s_op := " + emOp(s.Op) + "; s_out := " + emOut(s.Out) + "; s_delta := " + emDelta(prev, s.Pool) +
+		opText := emOp(s.Op)
+		if s.Op.K == "iofail" {
+			opText = fmt.Sprintf("(OIoFail %s %s)", emNat(s.Op.F), emBool(s.Out.Status == "err"))
+		}
+		parts[i] = "{| s_op := " + opText + "; s_out := " + emOut(s.Out) + "; s_delta := " + emDelta(prev, s.Pool) +
 			"; s_nrows := " + emList(s.Nrows, emZ) + " |}"
 		prev = s.Pool
 	}
